@@ -4514,6 +4514,9 @@ class ParseCtx:
 
     def _convert_char_const(self, char_const: str):
         if len(char_const) == 3:
+            if ord(char_const[1]) > 0xff:
+                # (as in string literals: one character stands for one byte)
+                raise IllegalParseTree("Character constant does not fit in a byte", char_const)
             return char_const[1]
         else:
             return {
@@ -5742,7 +5745,8 @@ class CodegenCtx:
         else:
             bytes_value = value
         for i in bytes_value:
-            if chr(i) in ["\\", '"']:
+            if chr(i) in ["\\", '"', "?"]:
+                # (a question mark is escaped so that no trigraph, such as ??/ for a backslash, can form)
                 result += "\\" + chr(i)
             elif not (32 <= i < 127):
                 # fixed-width octal: unlike a hexadecimal escape, a following digit can never be absorbed into the escape
